@@ -121,6 +121,11 @@ func concRoutes() []ref.Route {
 		// options applied twice: the last one decides (shared defaults say Parallel, the
 		// resource's own options take it back and name a group)
 		{Pattern: "svc.pf.$id", Marker: "pf", Group: "pf"},
+		// the tag of the group names the later of two placeholders whose names start alike
+		{Pattern: "svc.px.$idx.$id", Marker: "px", Group: "${id}"},
+		// registered through the parent below a mounted Mux, the tags of the group in another
+		// order than the placeholders of the pattern
+		{Pattern: "svc.mnt.ooo.$a.$b.$c", Marker: "ooo", Group: "${c}.${a}"},
 	}
 }
 
@@ -194,6 +199,7 @@ func (e *concEngine) configure(s *res.Service) {
 	s.Handle("bt.$id.baz", with(h("btph"), res.Group("bt"))...)
 	s.Handle("bt.>", with(h("btfull"), res.Group("bt"))...)
 	s.Handle("pf.$id", with(h("pf"), res.Parallel(true), res.Group("pfx"), res.Parallel(false), res.Group("pf"))...)
+	s.Handle("px.$idx.$id", with(h("px"), res.Group("${id}"))...)
 	sub := res.NewMux("")
 	sub.Route("u", func(m *res.Mux) {
 		m.Handle("$id", with(h("ufirst"), res.Group("${id}"))...)
@@ -208,6 +214,7 @@ func (e *concEngine) configure(s *res.Service) {
 	s.Mount("mnt", sub)
 	// registered through the parent below the mounted child
 	s.Handle("mnt.thru.$g.$id", with(h("thru"), res.Group("t.${g}"))...)
+	s.Handle("mnt.ooo.$a.$b.$c", with(h("ooo"), res.Group("${c}.${a}"))...)
 }
 
 // groupOf computes the group the documentation promises for a resource id.
@@ -300,7 +307,8 @@ func (e *concEngine) handle(kind string, r *res.Request) {
 }
 
 var concRIDs = []string{"svc.mnt.wk.a.%d.t", "svc.mnt.wk.b.%d.t.u", "svc.res.%d", "svc.sa.%d", "svc.sb.%d", "svc.tag.g%d.x", "svc.tag.g%d.y", "svc.mnt.item.%d", "svc.mnt.tg.g%d.z", "svc.mnt.deep.x.%d", "svc.mnt.thru.g%d.q", "svc.par.%d", "svc", "svc.mnt", "svc.pg.%d", "svc.t%d.zfirst", "svc.mnt.u.g%d", "svc.t%d.zfirst",
-	"svc.bt.foo.baz", "svc.bt.g%d.zap", "svc.bt.foo.bar", "svc.bt.foo.zap.x%d", "svc.pf.%d", "svc.pf.%d"}
+	"svc.bt.foo.baz", "svc.bt.g%d.zap", "svc.bt.foo.bar", "svc.bt.foo.zap.x%d", "svc.pf.%d", "svc.pf.%d",
+	"svc.px.a.g%d", "svc.px.b.g%d", "svc.mnt.ooo.g%d.x.k", "svc.mnt.ooo.g%d.y.k"}
 
 func (e *concEngine) randRID(r *rand.Rand) string {
 	hot := e.cfg.HotGroups
